@@ -51,6 +51,38 @@ def validate_scanners(work_root, unit, names, gen):
         _validated[key] = dict(calls=int(m.group(1)), nonzero=int(m.group(2)))
         return _validated[key]
 
+_lex_lock = threading.Lock()
+_lex_done = {}
+
+def prepare_lexer(spec, work, work_root):
+    """Engine B for lexer.c scan(); translation validated natively against the real scan() on the test corpus (token stream equality)"""
+    gen = vrun.engine_b(work_root, 'lexer.c', funcs=['scan'])
+    with _lex_lock:
+        if 'ok' not in _lex_done:
+            d = os.path.join(work_root, 'irb'); inc = vrun.prepare_inc(work_root)
+            drv = os.path.join(d, 'lexdiff.c')
+            with open(drv, 'w') as f:
+                f.write('#include <stdio.h>\n#include <string.h>\n#include <stdlib.h>\n#include "lexer.h"\n#include "ir_native.h"\n#include "%s"\n' % gen)
+                f.write(r'''int main(int argc,char**argv){ long n=0,bad=0;
+  for(int a=1;a<argc;a++){ FILE*f=fopen(argv[a],"rb"); if(!f) continue; static char buf[1<<21]; size_t len=fread(buf,1,sizeof buf-1,f); buf[len]=0; fclose(f);
+    Scanner s1={buf,buf,buf,buf}, s2={buf,buf,buf,buf}; int t1,t2;
+    do { t1=scan(&s1,buf+len); t2=(int)ir_scan((uint64_t)(uintptr_t)&s2,(uint64_t)(uintptr_t)(buf+len)); n++;
+      if(t1!=t2||s1.cur!=s2.cur||s1.start!=s2.start){bad++; printf("DIFF %s t1=%d t2=%d\n",argv[a],t1,t2); break;} } while(t1); }
+  printf("tokens=%ld bad=%ld\n",n,bad); return bad!=0; }
+''')
+            exe = os.path.join(d, 'lexdiff')
+            r = vrun.run(['gcc', '-O1', '-w', '-DNDEBUG', '-I', vrun.SRC, '-I', inc, '-I', vrun.COMMON, drv, os.path.join(vrun.SRC, 'lexer.c'), '-o', exe], timeout=600)
+            if r['rc'] != 0:
+                raise vrun.Fail('lexer translation-validation build failed: %s' % r['err'][-1500:])
+            files = sorted(glob.glob(os.path.join(vrun.REPO, 'tests', 'MMD6Tests', '*.text')))
+            r = vrun.run([exe] + files, timeout=600)
+            m = re.search(r'tokens=(\d+) bad=(\d+)', r['out'])
+            if r['rc'] != 0 or not m or int(m.group(2)) != 0 or int(m.group(1)) < 1000:
+                raise vrun.Fail('lexer translation validation FAILED: %s %s' % (r['out'][-500:], r['err'][-300:]))
+            _lex_done['ok'] = int(m.group(1))
+    spec.setdefault('defs', {})['IRFILE'] = '"%s"' % gen
+    spec['tv'] = dict(tokens=_lex_done['ok'])
+
 def prepare_scanner(spec, work, work_root):
     unit = spec.get('ir_unit', 'scanners.c')
     names = scanner_names(unit) if unit == 'scanners.c' else xml_scanner_names()
